@@ -4,7 +4,7 @@ SID="$1"; PROP="$2"; shift; shift
 cd /repo || exit 2
 if [ -n "$(git status --porcelain --untracked-files=no)" ]; then echo "/repo not clean"; exit 2; fi
 git apply /verif/seeded/$SID/patch.diff || { echo "patch does not apply"; exit 2; }
-cd /verif && ./check $PROP "$@" > /var/tmp/verif-work/seedrun-$SID.log 2>&1; rc=$?
+cd /verif && VERIF_EVIDENCE_DIR=/var/tmp/verif-work/seed-evidence ./check $PROP "$@" > /var/tmp/verif-work/seedrun-$SID.log 2>&1; rc=$?
 cd /repo && git checkout -- . 
 echo "seed $SID property $PROP exit=$rc"
 grep -E "VIOLATION|INCONCLUSIVE|KNOWN|obligation=|harness=|tier=" /var/tmp/verif-work/seedrun-$SID.log | cut -c1-260
